@@ -52,6 +52,14 @@ const (
 	// idShortTail: a torn tail of 1..3 bytes (partial checksum field) is read as a clean end of the log.
 	idShortTail = "C15-torn-tail-short-header"
 
+	// idLengthDesync: one changed byte in a record's length field hides every later marker of that file from the
+	// search that ignores corrupted entries (no way to get back into frame).
+	idLengthDesync = "C15-length-byte-desync"
+
+	// idSyncedStart: a node that enters consensus without the WAL catch-up (after block sync / state sync) writes no
+	// end-of-height marker for the last synced block; the first height it logs is never replayed after a crash.
+	idSyncedStart = "C15-no-marker-after-sync"
+
 	// refMaxPayload is the documented framing limit: 1 MB of consensus message plus 24 bytes of time stamp.
 	refMaxPayload = 1048576 + 24
 
@@ -121,6 +129,8 @@ type seg struct {
 	// flip junk only: a whole frame whose length field is intact (the changed byte is in the checksum or the payload):
 	// a decoder that skips it is positioned exactly on the next record
 	framed bool
+	// flip junk only: the changed byte hit a whole record (not a torn remnant)
+	whole bool
 }
 
 func (s seg) size() int {
@@ -178,6 +188,9 @@ type sim struct {
 	excusedNoMarker  bool
 	knownShortHeader bool
 	probeNontrivial  bool
+
+	// a reader that stays open while the log goes on being written, rotated and pruned
+	live *liveReader
 
 	// a tick of the group's limit checks scheduled behind the armTick-th low-level Group.Write from now
 	armTick   int
@@ -274,6 +287,7 @@ func (s *sim) open() {
 }
 
 func (s *sim) closeWAL() {
+	s.closeLive()
 	if s.wal == nil {
 		return
 	}
@@ -614,6 +628,21 @@ func (s *sim) search(h int64, ignore bool, when string) (found bool, term error,
 	if behindDamage {
 		s.class(fmt.Sprintf("search:marker-on-disk-with-framed-damage/ignore=%v", ignore))
 	}
+	// A changed byte in a record's LENGTH field is a single-byte corruption too, but the format has nothing to find
+	// the next record with (the checksum covers the payload only, there is no sync mark): the skipping search reads
+	// on out of frame and misses every marker behind the damage in that file. Known finding, tolerated by signature.
+	lengthDesync := false
+	if len(occ) > 0 && !clean && !behindDamage && ignore && flipsOnly(items) {
+		lengthDesync = true
+		for _, p := range occ {
+			if !unframedFlipBefore(s, items[p].r) {
+				lengthDesync = false // this occurrence is reachable in frame
+			}
+		}
+		if !lengthDesync {
+			behindDamage = true // some occurrence has no length damage in front of it in its file: must be found
+		}
+	}
 	if err != nil {
 		if rd != nil || found {
 			s.fail("%s: error %v together with found=%v reader=%v", what, err, found, rd != nil)
@@ -622,7 +651,7 @@ func (s *sim) search(h int64, ignore bool, when string) (found bool, term error,
 			s.fail("%s: (3) the log is intact but the search failed: %v", what, err)
 		}
 		if behindDamage && ignore {
-			s.fail("%s: (3) the marker (record #%d) is intact on disk and every damaged record keeps the framing, but the search that ignores corrupted entries failed: %v",
+			s.fail("%s: (3) the marker (record #%d) is intact on disk and reachable in frame, but the search that ignores corrupted entries failed: %v",
 				what, items[occ[0]].r.seq, err)
 		}
 		s.class("search:error")
@@ -636,8 +665,17 @@ func (s *sim) search(h int64, ignore bool, when string) (found bool, term error,
 			s.fail("%s: (3) marker was written (record #%d), is on disk and was not discarded, but the search did not find it", what, items[occ[0]].r.seq)
 		}
 		if behindDamage {
-			s.fail("%s: (3) marker was written (record #%d), is intact on disk and was not discarded; the only damage in the log is records with one changed byte "+
+			s.fail("%s: (3) marker was written (record #%d), is intact on disk and was not discarded; the only damage in front of it in its file is records with one changed byte "+
 				"in checksum or payload (framing intact), yet the search answers 'not found' without an error", what, items[occ[0]].r.seq)
+		}
+		if lengthDesync {
+			if lib.IsKnown(idLengthDesync) {
+				lib.ObservedKnown(idLengthDesync)
+				lib.ExcludedByKnown(idLengthDesync)
+			} else {
+				s.fail("%s: (3) marker was written (record #%d), is intact on disk and was not discarded, but a record in front of it in the same file has one changed byte in its "+
+					"length field: the search that skips corrupted entries never gets back into frame and answers 'not found' [%s]", what, items[occ[0]].r.seq, idLengthDesync)
+			}
 		}
 		s.class("search:notfound")
 		return false, nil, nil
@@ -672,6 +710,212 @@ func (s *sim) search(h int64, ignore bool, when string) (found bool, term error,
 	}
 	s.class("search:found")
 	return true, term, nil
+}
+
+// ---- a reader that stays open ----
+
+// liveReader is a group reader (opened at the oldest file, or returned by SearchForEndHeight) with a decoder on it
+// that is read a few records at a time while the history goes on: what it returns must be the journal's records from
+// its position on, without holes, whatever was appended, rotated or discarded since it was opened (a discarded file it
+// had not reached is skipped; the one it is reading stays readable).
+type liveReader struct {
+	rd     io.ReadCloser
+	dec    *consensus.WALDecoder
+	file   *fileM // file of the next record to come
+	seg    int    // and its position there
+	origin string
+	nread  int
+	// rotations / discarded files the history had seen when the reader was last used
+	rotSeen, pruneSeen int
+	// the reader has `file` open (it was opened on it or has read a record from it); false when it was opened on an
+	// empty file in front of it (group readers create the files they look for, and MinIndex dates from the last open)
+	holds bool
+}
+
+func (s *sim) closeLive() {
+	if s.live != nil {
+		s.live.rd.Close()
+		s.live = nil
+	}
+}
+
+// liveExpected lists what the open reader must return from its position on: the rest of its file, then every file
+// behind it, up to the first bytes that are no record. blocked: it ends at junk or inside a partly flushed record.
+func (s *sim) liveExpected() (exp []*rec, blocked bool) {
+	lr := s.live
+	s.syncHead()
+	pos := -1
+	for i, f := range s.files {
+		if f == lr.file {
+			pos = i
+		}
+	}
+	type span struct {
+		f    *fileM
+		from int
+	}
+	var spans []span
+	if pos >= 0 || lr.holds {
+		// also when it has been discarded meanwhile, if the reader holds it open
+		spans = append(spans, span{lr.file, lr.seg})
+	}
+	for i := pos + 1; i < len(s.files); i++ {
+		spans = append(spans, span{s.files[i], 0})
+	}
+	head := s.head()
+	for _, sp := range spans {
+		limit := len(sp.f.segs)
+		if sp.f == head {
+			limit = s.headComplete
+		}
+		for i := sp.from; i < limit; i++ {
+			if sp.f.segs[i].r == nil {
+				return exp, true
+			}
+			exp = append(exp, sp.f.segs[i].r)
+		}
+		if sp.f == head && s.headPartial > 0 {
+			return exp, true
+		}
+	}
+	return exp, false
+}
+
+func (s *sim) locate(r *rec) (*fileM, int) {
+	for _, f := range s.files {
+		for i := range f.segs {
+			if f.segs[i].r == r {
+				return f, i
+			}
+		}
+	}
+	return nil, 0
+}
+
+// openLive opens the long-lived reader: at the oldest file, or through SearchForEndHeight(h) when h >= 0.
+func (s *sim) openLive(h int64) {
+	s.syncHead()
+	if h >= 0 {
+		items, clean := s.diskStream()
+		var occ []*rec
+		for _, it := range items {
+			if it.r != nil {
+				if eh, ok := it.r.endHeight(); ok && eh == h {
+					occ = append(occ, it.r)
+				}
+			}
+		}
+		if !clean || len(occ) != 1 {
+			h = -1
+		} else {
+			rd, found, err := s.wal.SearchForEndHeight(h, &consensus.WALSearchOptions{})
+			if err != nil || !found {
+				s.fail("SearchForEndHeight(%d) for a long-lived reader: (3) the log is intact and the marker (record #%d) is on disk: found=%v err=%v", h, occ[0].seq, found, err)
+			}
+			f, i := s.locate(occ[0])
+			s.live = &liveReader{rd: rd, dec: consensus.NewWALDecoder(rd), file: f, seg: i + 1, origin: fmt.Sprintf("search(%d)", h), holds: true}
+		}
+	}
+	if h < 0 {
+		g := s.wal.Group()
+		gr, err := g.NewReader(g.MinIndex())
+		if err != nil {
+			s.fail("NewReader: %v", err)
+		}
+		first := g.MaxIndex()
+		if s.files[0].name != "" {
+			first = s.files[0].idx
+		}
+		s.live = &liveReader{rd: gr, dec: consensus.NewWALDecoder(gr), file: s.files[0], seg: 0, origin: "oldest-file", holds: g.MinIndex() == first}
+	}
+	s.live.rotSeen, s.live.pruneSeen = s.nRot, s.nPrune
+	s.class("live-reader:open/" + map[bool]string{true: "search", false: "oldest-file"}[h >= 0])
+	s.note("RD-OPEN(%s)", s.live.origin)
+}
+
+// readLive reads up to n records (n < 0: to the end) from the open reader.
+func (s *sim) readLive(n int) {
+	lr := s.live
+	exp, blocked := s.liveExpected()
+	if s.nRot > lr.rotSeen {
+		s.class("live-reader:read-after-rotation")
+	}
+	if s.nPrune > lr.pruneSeen {
+		s.class("live-reader:read-after-discarding")
+	}
+	lr.rotSeen, lr.pruneSeen = s.nRot, s.nPrune
+	for i := 0; n < 0 || i < n; i++ {
+		m, err := lr.dec.Decode()
+		if err != nil {
+			if i < len(exp) {
+				s.fail("long-lived reader (%s, %d records read so far): (1) it ends with %v before intact record #%d (%s) that is in the files behind its position",
+					lr.origin, lr.nread, err, exp[i].seq, exp[i].kind)
+			}
+			if !blocked && err != io.EOF {
+				s.fail("long-lived reader (%s): (1) nothing but whole records lies behind its position, yet it ends with %v", lr.origin, err)
+			}
+			if err != io.EOF && !consensus.IsDataCorruptionError(err) {
+				s.fail("long-lived reader (%s): ends with an error that is neither EOF nor DataCorruptionError: %v", lr.origin, err)
+			}
+			s.class("live-reader:drained")
+			s.note("RD-END(%d)", lr.nread)
+			s.closeLive()
+			return
+		}
+		if i >= len(exp) {
+			s.fail("long-lived reader (%s, %d records read so far): (2) it returns a record where none is on disk: %.200s", lr.origin, lr.nread, fmt.Sprintf("%#v", m.Msg))
+		}
+		if d := s.sameRecord(m, exp[i]); d != "" {
+			s.fail("long-lived reader (%s, %d records read so far): (2) the record it returns is not the next record of the log (#%d %s): %s",
+				lr.origin, lr.nread, exp[i].seq, exp[i].kind, d)
+		}
+		lr.nread++
+		f, k := s.locate(exp[i])
+		if f == nil {
+			// the record's file has been discarded while the reader holds it open
+			f, k = lr.file, lr.seg
+			for f.segs[k].r != exp[i] {
+				k++
+			}
+		}
+		lr.file, lr.seg, lr.holds = f, k+1, true
+	}
+	s.note("RD(%d)", lr.nread)
+	s.class("live-reader:partial-read")
+}
+
+// flipsOnly: everything on disk that is not a record is a frame with one changed byte, and marker heights increase.
+func flipsOnly(items []item) bool {
+	last := int64(0)
+	for _, it := range items {
+		if it.junk != nil {
+			if it.junk.why != "flip" || !it.junk.whole {
+				return false
+			}
+			continue
+		}
+		if eh, ok := it.r.endHeight(); ok && eh != 0 {
+			if eh <= last {
+				return false
+			}
+			last = eh
+		}
+	}
+	return true
+}
+
+// unframedFlipBefore: in the file that holds r, a frame with a changed length byte lies in front of r.
+func unframedFlipBefore(s *sim, r *rec) bool {
+	f, k := s.locate(r)
+	if f == nil {
+		return false
+	}
+	for _, sg := range f.segs[:k] {
+		if sg.r == nil && sg.why == "flip" && !sg.framed {
+			return true
+		}
+	}
+	return false
 }
 
 // framedDamageOnly: everything on disk that is not a record is a whole frame with one changed byte outside its length
@@ -1173,6 +1417,7 @@ func (s *sim) cloneAt(o int, label string) *sim {
 	c := *s
 	c.label = label
 	c.wal = nil
+	c.live = nil
 	c.dir = filepath.Join(s.base, fmt.Sprintf("g%d", s.gen))
 	c.path = filepath.Join(c.dir, "wal")
 	c.history = append([]string(nil), s.history...)
@@ -1579,8 +1824,50 @@ func TestWALHistories(t *testing.T) {
 			"limits2":     limits,
 			"scan":        scan,
 			"cleanReopen": func(t *rapid.T) { s.cleanReopen() },
-			"crash1":      crash,
-			"crash2":      crash,
+			"readerOpen": func(t *rapid.T) {
+				if s.live != nil {
+					t.Skip("a reader is open")
+				}
+				h := int64(-1)
+				if rapid.IntRange(0, 2).Draw(t, "viaSearch") == 0 && s.ehNext > 1 {
+					h = rapid.Int64Range(0, s.ehNext-1).Draw(t, "readerFromHeight")
+				}
+				s.openLive(h)
+				s.readLive(rapid.IntRange(0, 4).Draw(t, "readNow"))
+			},
+			// the shape catchupReplay has when the group's ticker fires during it: a reader is open and partly read,
+			// the log is written to and a tick (rotation, discarding) runs, then the reader goes on
+			"readerSpan": func(t *rapid.T) {
+				if s.live == nil {
+					s.openLive(-1)
+					s.readLive(rapid.IntRange(0, 3).Draw(t, "readNow"))
+				}
+				for i, k := 0, rapid.IntRange(1, 4).Draw(t, "spanWrites"); i < k; i++ {
+					msg, kind := genMsg(t, s.nextSeq, s.ehNext)
+					s.write(msg, kind, rapid.Bool().Draw(t, "spanSync"))
+				}
+				s.checkLimits()
+				keepMarker()
+				if s.live != nil {
+					n := rapid.IntRange(-1, 6).Draw(t, "readMore")
+					if n == 0 {
+						n = -1
+					}
+					s.readLive(n)
+				}
+			},
+			"readerRead": func(t *rapid.T) {
+				if s.live == nil {
+					t.Skip("no reader open")
+				}
+				n := rapid.IntRange(-1, 6).Draw(t, "readMore")
+				if n == 0 {
+					n = -1
+				}
+				s.readLive(n)
+			},
+			"crash1": crash,
+			"crash2": crash,
 		})
 		// the log must still be readable at the end of every history
 		s.cleanReopen()
@@ -1832,7 +2119,7 @@ func (s *sim) flip(t *rapid.T) {
 	}
 	j := append([]byte(nil), b[tg.off:tg.off+size]...)
 	if sg.r != nil {
-		tg.f.segs[tg.i] = seg{junk: j, why: "flip", framed: pos < 4 || pos >= 8}
+		tg.f.segs[tg.i] = seg{junk: j, why: "flip", framed: pos < 4 || pos >= 8, whole: true}
 	} else {
 		tg.f.segs[tg.i].junk = j
 		tg.f.segs[tg.i].why = "flip"
